@@ -107,19 +107,25 @@ def expected_from_draws(us, L, W, p, m):
     return rewards, loose
 
 
-def accepted(seed, w, l, prb, plb, plt, ptb, m):
-    """independent re-statement of the documented ranges; returns index of the first violated range or None"""
+def violated(seed, w, l, prb, plb, plt, ptb, m):
+    """independent re-statement of the documented ranges: indices of the violated ones, in the code's order"""
     tests = [seed >= 0, w >= 1, l >= 1, 0 < prb < 1, 0 < plb < 1, 0 < plt < 1, 0 < ptb < 1, m >= 1]
-    for k, t in enumerate(tests):
-        if not t:
-            return k
-    return None
+    return [k for k, t in enumerate(tests) if not t]
+
+
+def accepted(*c):
+    v = violated(*c)
+    return v[0] if v else None
 
 
 # ------------------------------------------------------------------ Coq terms
 def cq(x):
     fr = Fraction(x)
     return "(Qmake %s %d)" % (cz(fr.numerator), fr.denominator)
+
+
+def czz(k):
+    return "(%d)%%Z" % k
 
 
 def cfx(x):
@@ -349,7 +355,7 @@ def run(ctx):
             ctx.violation("check_input raised %s, not ValueError" % r.get("exc", "timeout"), inp, impl=r)
             continue
         first = accepted(*c)
-        nviol = sum(1 for k in range(8) if accepted(*[c[j] if j == k else (0, 3, 3, .1, .1, .3, .1, 6)[j] for j in range(8)]) is not None)
+        nviol = len(violated(*c))
         ctx.count("check_input:%d-violated" % nviol)
         if nviol == 1:
             ctx.nontrivial.add(c if not nan else tuple(repr(v) for v in c))
@@ -360,7 +366,7 @@ def run(ctx):
                 ctx.violation("check_input %s, the documented ranges say %s" % (
                     "accepted" if got is None else "refused with '%s'" % got,
                     "accept" if want is None else "refuse with '%s'" % want), inp, impl=got)
-        cterms.append("(%s, %s, %s, %s, %s, %s)" % (cz(c[0]), cz(c[1]), cz(c[2]), clist([cfx(float(v)) for v in c[3:7]]), cz(c[7]),
+        cterms.append("(%s, %s, %s, %s, %s, %s)" % (czz(c[0]), czz(c[1]), czz(c[2]), clist([cfx(float(v)) for v in c[3:7]]), czz(c[7]),
                                                 "None" if got is None else "(Some %s)" % cstr(got)))
         cmeta.append((inp, got))
     cbody = lambda l: (
@@ -398,7 +404,7 @@ def run(ctx):
                 ctx.violation("an accepted parameter set did not produce exactly one file (exit status %s, '%s')" % (r.get("rc"), last[:200]), inp, impl=r)
                 continue
             obs = "(XPath %s)" % cstr(files[0][0])
-        lterms.append("(%s, %s, %s, %s, %s, %s, %s)" % (cz(c[0]), cz(c[1]), cz(c[2]), cz(c[7]),
+        lterms.append("(%s, %s, %s, %s, %s, %s, %s)" % (czz(c[0]), czz(c[1]), czz(c[2]), czz(c[7]),
                                                     clist([cfx(float(c[5])), cfx(float(c[6])), cfx(float(c[3])), cfx(float(c[4]))]),
                                                     cbool(fd), obs))
         lmeta.append((inp, obs))
